@@ -27,6 +27,19 @@ import (
 
 const mst = "m"
 
+// the stress spreads its series over two live measurements (odd series -> "m", even series -> "m3"), so that one
+// snapshot flushes two measurements in parallel, each with its own flushed flag and file lists
+const mst3 = "m3"
+
+func mstOf(s int) string {
+	if s%2 == 1 {
+		return mst
+	}
+	return mst3
+}
+
+var twoMeasurements = false // only the stress sets it; forced schedules and probes use "m" alone
+
 // timestamps: baseTime + k seconds (k = logical time of the point)
 var baseTime = time.Date(2024, 1, 1, 0, 0, 0, 0, time.UTC).UnixNano()
 
@@ -108,6 +121,9 @@ func seriesTag(s int) string { return "s" + strconv.Itoa(s) }
 func mkRow(s int, k int64, code int64) influx.Row {
 	var r influx.Row
 	r.Name = mst
+	if twoMeasurements {
+		r.Name = mstOf(s)
+	}
 	r.Tags = influx.PointTags{{Key: "sk", Value: seriesTag(s)}}
 	r.Fields = influx.Fields{
 		{Key: "v", NumValue: float64(code), Type: influx.Field_Type_Int},
@@ -143,9 +159,11 @@ type qresult struct {
 
 var fieldAux = []influxql.VarRef{{Val: "v", Type: influxql.Integer}, {Val: "w", Type: influxql.Integer}}
 
-func mkSchema(kmin, kmax int64, asc bool) *executor.QuerySchema {
+func mkSchema(kmin, kmax int64, asc bool) *executor.QuerySchema { return mkSchemaOf(mst, kmin, kmax, asc) }
+
+func mkSchemaOf(m string, kmin, kmax int64, asc bool) *executor.QuerySchema {
 	opt := &query.ProcessorOptions{}
-	opt.Name = mst
+	opt.Name = m
 	opt.Ascending = asc
 	opt.FieldAux = fieldAux
 	opt.MaxParallel = 4
@@ -189,13 +207,17 @@ func seriesOfKey(key []byte) (int, bool) {
 }
 
 func runQuery(sh *engine.VerifC04Shard, kmin, kmax int64, asc bool) (res qresult) {
+	return runQueryOf(sh, mst, kmin, kmax, asc)
+}
+
+func runQueryOf(sh *engine.VerifC04Shard, m string, kmin, kmax int64, asc bool) (res qresult) {
 	res.rows = make(map[point]val)
 	defer func() {
 		if e := recover(); e != nil {
 			res.err = fmt.Errorf("PANIC in query: %v\n%s", e, debug.Stack())
 		}
 	}()
-	schema := mkSchema(kmin, kmax, asc)
+	schema := mkSchemaOf(m, kmin, kmax, asc)
 	_, err := sh.VerifC04Scan(context.Background(), schema, func(key []byte, rec *record.Record) {
 		s, ok := seriesOfKey(key)
 		if !ok {
